@@ -30,6 +30,26 @@ var repoDir = "/repo"
 
 var replayTemplates = []*replayTemplate{
 	{
+		name: "ws_options_race.go.tmpl",
+		match: func(o *Obligation) bool {
+			return (o.Kind == "guard.read" || o.Kind == "guard.write") && (strings.HasPrefix(o.Func, "(*transport/ws.listener).") || strings.HasPrefix(o.Func, "(*transport/ws.dialer).")) && (strings.Contains(o.Name, ".opts") || strings.Contains(o.Name, ".ug"))
+		},
+		run: func(g *Gen, o *Obligation, model map[string]string) (bool, string) {
+			// fixed schedule, under the race detector: SetOption in one goroutine, GetOption / Dial in others
+			return runReplayArgs("transport/ws", "ws_options_race.go.tmpl", map[string]string{}, "TestZZReplayWsOptionsRace", "-race")
+		},
+	},
+	{
+		name: "ipc_listener_option_readback.go.tmpl",
+		match: func(o *Obligation) bool {
+			return o.Kind == "post" && o.Func == "(*transport/ipc.listener).GetOption" && strings.Contains(o.Note, "OptionIpcSocket")
+		},
+		run: func(g *Gen, o *Obligation, model map[string]string) (bool, string) {
+			// fixed inputs: each of the three ipc listener options is set to an accepted value and read back
+			return runReplay("transport/ipc", "ipc_listener_option_readback.go.tmpl", map[string]string{}, "TestZZReplayIpcListenerOptionReadback")
+		},
+	},
+	{
 		name: "xrep_send_peer_gone.go.tmpl",
 		match: func(o *Obligation) bool {
 			return o.Kind == "post" && o.Func == "(*protocol/xrep.socket).SendMsg" && strings.Contains(o.Note, "result == protocol.ErrClosed ==> s.closed")
